@@ -51,9 +51,12 @@ def _sign_of(it: Interp, sym) -> str:
     return "|".join(sorted(al))
 
 
-def run_operate(chk: Check, prog: Program) -> None:
-    chk.rule("C05.R1", "operate body == the class's operator on the operands in order (symbolic interpretation)", minimum=14)
-    chk.rule("C05.R6", "no fixed-width numeric routine on operand values in evaluate/operate", minimum=10)
+def run_operate(chk: Check, prog: Program, only=None, r1: str = "C05.R1", r6: str = "C05.R6") -> None:
+    """`only` restricts the clause to some operator classes and r1 / r6 rename the rules (C02 re-uses the Equal clause: an
+    equation 'holds' exactly when Equal.operate accepts its sides)."""
+    if only is None:
+        chk.rule(r1, "operate body == the class's operator on the operands in order (symbolic interpretation)", minimum=14)
+        chk.rule(r6, "no fixed-width numeric routine on operand values in evaluate/operate", minimum=10)
 
     def ext_isclose(it, path, args, kwargs):
         a, b = it.to_term(args[0]), it.to_term(args[1])
@@ -64,6 +67,8 @@ def run_operate(chk: Check, prog: Program) -> None:
         return it.atom(f"within-tolerance({A.term_str(a)},{A.term_str(b)})")
 
     for kind, op in list(EXPECT_BIN.items()) + list(EXPECT_UN.items()):
+        if only is not None and kind not in only:
+            continue
         m = prog.find_method(kind, "operate")
         if m is None or m.cls is None or m.cls.name in ("BinaryExpression", "UnaryExpression"):
             raise AnalysisError(f"{kind}.operate vanished")
@@ -82,11 +87,11 @@ def run_operate(chk: Check, prog: Program) -> None:
         for p in results:
             it = p.interp
             label = f"{kind}.operate: {p.cond or 'single path'}"
-            key = f"C05.R1:{kind}.operate"
+            key = f"{r1}:{kind}.operate"
             probs: List[str] = []
             exts = [e[1] for e in it.events if e[0] == "ext"]
             if p.outcome == "bound":
-                chk.undecided("C05.R1", key, label, p.note, m.where)
+                chk.undecided(r1, key, label, p.note, m.where)
                 continue
             if op == "eq":
                 eqfact = _sign_of(it, ("sub", one, two))
@@ -136,16 +141,18 @@ def run_operate(chk: Check, prog: Program) -> None:
                         c = A.nf_is_const(A.normalize(t))
                         if want is None or c is None or c != want:
                             probs.append(f"returns {A.term_str(t)} when sign(value) is {s}")
-            chk.verdict(not probs, "C05.R1", key, label, "; ".join(probs), witness={"path": p.cond, "problems": probs},
+            chk.verdict(not probs, r1, key, label, "; ".join(probs), witness={"path": p.cond, "problems": probs},
                         where=m.where)
+            if r6 is None:
+                continue
             bad = [e for e in exts if e in FIXED_WIDTH]
             if bad:
-                chk.fail("C05.R6", f"C05.R6:{kind}.operate:{bad[0]}", label,
+                chk.fail(r6, f"{r6}:{kind}.operate:{bad[0]}", label,
                          f"arithmetic on the operand values goes through {bad[0]}: integers are int64 there, so results "
                          f"beyond 2^63 wrap silently and integer^negative-integer raises",
                          witness={"example": "2^64 evaluates to 0, 10^19 to -8446744073709551616"}, where=m.where)
             else:
-                chk.ok("C05.R6", f"C05.R6:{kind}.operate", label + (f" (external: {exts})" if exts else ""), where=m.where)
+                chk.ok(r6, f"{r6}:{kind}.operate", label + (f" (external: {exts})" if exts else ""), where=m.where)
 
 
 def run_plumbing(chk: Check, prog: Program) -> None:
@@ -266,6 +273,48 @@ def run_variable(chk: Check, prog: Program) -> None:
                     f"{p.outcome} {p.value!r}", where=mc.where)
 
 
+def run_literal_text(chk: Check, prog: Program, rid: str = "C05.R7") -> None:
+    """The number a literal's text denotes: an integer text (no '.', no exponent mark) must be converted by int() applied to
+    the text itself - a detour through float() rounds every integer above 2^53 - and a text with a '.' by float()."""
+    chk.rule(rid, "literal text -> number: integer texts through int(text) exactly, decimal texts through float(text)", minimum=2)
+    f = prog.func("tokenizer", "coerce_to_number")
+
+    def body(it: Interp):
+        text = Opaque("text:literal", truthy=True)
+        return it.call_function(f, [text], {})
+    n = 0
+    for p in explore(prog, body, {"max_updepth": 0}, max_paths=64):
+        it = p.interp
+        n += 1
+        has_dot = it.atoms.get("in:'.':Opaque<text:literal>")
+        has_e = it.atoms.get("in:'e':Opaque<text:literal>")
+        label = f"coerce_to_number on a literal text: {p.cond or 'single path'}"
+        key = f"{rid}:coerce_to_number"
+        if p.outcome == "raise":
+            # int("1.5") / float("1.2.3") raise ValueError themselves: a malformed number, inside the contract
+            chk.verdict(p.exc.exc == "ValueError", rid, key, label, f"raises {p.exc}", where=f.where)
+            continue
+        t = it.to_term(p.value) if p.outcome == "return" else None
+        if t is None:
+            chk.fail(rid, key + ":value", label, f"returns {p.value!r}", where=f.where)
+            continue
+        atom = ("atom", "text:literal")
+        if has_dot is None and has_e is None:
+            # the code never asked what kind of literal it is: only an exact conversion of integer texts is acceptable
+            ok = t == ("fn", "int_of_text", atom)
+            why = "the text is converted without distinguishing integer from decimal literals"
+        elif not has_dot and not has_e:
+            ok = t == ("fn", "int_of_text", atom)
+            why = f"an integer literal becomes {A.term_str(t)}: not int(text) - integers above 2^53 are rounded when the " \
+                  f"value passes through a float (9007199254740993 reads as 9007199254740992)"
+        else:
+            ok = t in (("fn", "float_of_text", atom), ("fn", "int_of_text", atom))
+            why = f"a decimal literal becomes {A.term_str(t)}"
+        chk.verdict(ok, rid, key, label, "" if ok else why, witness=None if ok else {"example": "9007199254740993"}, where=f.where)
+    if n == 0:
+        raise AnalysisError("coerce_to_number has no path")
+
+
 def run(chk: Check) -> None:
     prog = program(chk)
     chk.technique = "symbolic interpretation of operate/evaluate bodies + normal-form comparison; external-routine table"
@@ -276,7 +325,8 @@ def run(chk: Check) -> None:
         "evaluate feed operate with the children's values in order and forward the context; a variable evaluates only "
         "to the context's non-None value for its identifier and raises ValueError otherwise; constants evaluate to "
         "their payload; no operator goes through a fixed-width numpy routine (today PowerExpression does: known "
-        "finding). Not decided: ulp accuracy of float results, magnitude behaviour of float overflow, the exactness of "
+        "finding); the text of an integer literal is converted by int() applied to the text itself, never through a float. "
+        "Not decided: ulp accuracy of float results, magnitude behaviour of float overflow, the exactness of "
         "numpy.absolute / math.factorial themselves.")
     chk.assumptions = ["Python int/float operators and math.factorial are exact (language semantics)",
                        "numpy ufuncs on Python ints use int64 (external table)"]
@@ -284,5 +334,6 @@ def run(chk: Check) -> None:
     run_operate(chk, prog)
     run_plumbing(chk, prog)
     run_variable(chk, prog)
+    run_literal_text(chk, prog)
     chk.exhaustive = True
     chk.max_undecided = 0
